@@ -60,6 +60,9 @@ pub(crate) struct SessionConnectionActorX<S: ZmtpStdStream> {
   ping_check_timer: Option<tokio::time::Interval>,
 
   handshake_deadline: Option<TokioInstant>,
+  /// Messages the engine completed in the same read as the last handshake bytes; moved into the
+  /// ingress buffer when the operational loop starts.
+  handshake_deliveries: std::collections::VecDeque<FrameBatch>,
   socket_logic: Arc<dyn ISocket>,
   session_regulator: SessionRegulator,
   _connection_permit: Option<OwnedSemaphorePermit>,
@@ -145,6 +148,7 @@ where
       error_for_drop_guard: None,
       ping_check_timer,
       handshake_deadline,
+      handshake_deliveries: std::collections::VecDeque::new(),
       socket_logic,
       session_regulator: SessionRegulator::new(regulator_min_lifespan),
       _connection_permit: connection_permit,
@@ -286,6 +290,9 @@ where
     // ── OPERATIONAL LOOP ──────────────────────────────────────────────────────
     if self.current_phase == ConnectionPhaseX::Operational {
       let mut message_processor = ZmqMessageProcessor::new();
+
+      // Data frames that shared a read with the peer's last handshake bytes come first.
+      ingress_buffer.extend(self.handshake_deliveries.drain(..));
 
       let mut read_half = self
         .read_half
@@ -918,7 +925,9 @@ where
           self.set_fatal_error(e).await;
           return;
         }
-        AppAction::DeliverMessage(_) => {}
+        AppAction::DeliverMessage(batch) => {
+          self.handshake_deliveries.push_back(batch);
+        }
       }
     }
   }
